@@ -166,6 +166,9 @@ Together these are necessary conditions for byte-identical output under repetiti
         "callee resolution by Instance::try_resolve; unresolved trait calls fan out to all impls (over-approximation)".into(),
     ];
     ctx.rule("per reachable MIR body: classify every call by callee path (hashed iteration / ambient read), every ptr->int cast, every static by type; syn: field/let types of the definition-carrying containers");
+    // "permuting the sources gives identical bindings" presupposes that every source handed in is kept: the builder's
+    // add_* methods, evaluated per typestate (the analysis lives with C20.sources)
+    crate::rules::util::borrow(ctx, "C20", "C20.sources", "C11.sources", &mut |sub| crate::rules::c20::builder_sources(m, sub));
 
     let roots = c08::roots(facts);
     let (reach, pred) = facts.reachable(&roots);
